@@ -2,6 +2,7 @@ package webauthn
 
 import (
 	"crypto"
+	"crypto/rsa"
 	"crypto/subtle"
 	"crypto/x509"
 	"fmt"
@@ -107,6 +108,11 @@ func verifyAndroidKeyAttestationStatementCredentialPublicKey(
 	})
 	if !ok {
 		return fmt.Errorf("%w: unsupported key type: %T", ErrInvalidAttestationStatement, certificatePublicKey)
+	}
+
+	// the COSE RSA key reports its crypto key by value, certificates carry a pointer
+	if rsaPublicKey, ok := credentialPublicKey.(rsa.PublicKey); ok {
+		credentialPublicKey = &rsaPublicKey
 	}
 
 	if !withEqual.Equal(credentialPublicKey) {
